@@ -61,4 +61,3 @@ package logger
 //@   safety
 //@   opt auto-counters 1
 //@   prop C16
-
